@@ -216,6 +216,34 @@ pub fn c06(ctx: &mut Ctx) {
     });
 }
 
+/// The table in very wide decisions: thousands of falsy (truthy) corner values before the deciding one.
+pub fn c06_wide(ctx: &mut Ctx) {
+    let falsy = [json!(false), Value::Null, json!(0), json!(-0.0), json!(""), json!([])];
+    let truthy = [json!("0"), json!([0]), json!([[]]), json!({}), json!(" "), json!(-1), json!("false")];
+    for n in slice(ctx, COUNTS) {
+        let mut if_args: Vec<Value> = Vec::with_capacity(n + 1);
+        for i in 0..n / 2 {
+            if_args.push(falsy[i % falsy.len()].clone());
+            if_args.push(json!("WRONG"));
+        }
+        if_args.push(json!("ELSE"));
+        let mut or_args: Vec<Value> = (0..n).map(|i| falsy[i % falsy.len()].clone()).collect();
+        or_args.push(json!("0"));
+        let mut and_args: Vec<Value> = (0..n).map(|i| truthy[i % truthy.len()].clone()).collect();
+        and_args.push(json!([]));
+        for (rule, want) in [(json!({ "if": if_args.clone() }), json!("ELSE")), (json!({ "?:": if_args }), json!("ELSE")), (json!({ "or": or_args }), json!("0")), (json!({ "and": and_args }), json!([]))] {
+            let obs = ctx.observe(&rule, &Value::Null);
+            ctx.mon("c06.table").observed += 1;
+            ctx.mon("c06.table").judged += 1;
+            if !matches!(&obs.out, Outcome::Ok(v) if *v == want) {
+                ctx.violation("c06.table", &format!("far-wide:{}", crate::ctx::top_op(&rule)), &json!({"op": crate::ctx::top_op(&rule), "operands": n, "shape": "corner values that do not decide, then the deciding one"}), &Value::Null, json!({ "ok": want }), obs.out.brief(), "a very wide decision over corner values did not reach the deciding operand");
+            }
+        }
+        ctx.cell("far-ladder");
+        ctx.mark_nontrivial_key(&format!("c06:far-wide:{}", n));
+    }
+}
+
 /// Deep arrays compare with primitives through their string form (C07, C09) and are pieces of `cat` (C16).
 pub fn strings_of_deep_arrays(ctx: &mut Ctx, pid: &'static str) {
     let depths = slice(ctx, DEPTHS);
